@@ -427,18 +427,71 @@ namespace hs
         {
             return which == 0 ? o_->capacity_left() : which == 1 ? o_->next_capacity() : 0;
         }
+        // raii mode: every marker is a memory_stack_raii_unwind object that was handed over once (move construction
+        // or move assignment onto a released one); the moved-from object lives on until the next marker operation
+        using Unwinder = fm::memory_stack_raii_unwind<Stack>;
         int push_marker() override
         {
+            if (raii_)
+            {
+                husks_.clear(); // destroying a moved-from unwinder must do nothing
+                std::unique_ptr<Unwinder> u(new Unwinder(*o_));
+                markers_.push_back(u->get_marker());
+                std::unique_ptr<Unwinder> k;
+                if (markers_.size() % 2)
+                {
+                    k.reset(new Unwinder(*o_));
+                    k->release();
+                    *k = std::move(*u);
+                }
+                else
+                    k.reset(new Unwinder(std::move(*u)));
+                husks_.push_back(std::move(u));
+                keepers_.push_back(std::move(k));
+                return int(markers_.size()) - 1;
+            }
             markers_.push_back(o_->top());
             return int(markers_.size()) - 1;
         }
         void unwind(int i) override
         {
+            if (raii_)
+            {
+                husks_.clear();
+                // inner scopes end without unwinding on their own
+                while (keepers_.size() > std::size_t(i) + 1)
+                {
+                    keepers_.back()->release();
+                    keepers_.pop_back();
+                }
+                keepers_[std::size_t(i)]->unwind();
+                return;
+            }
             o_->unwind(markers_[std::size_t(i)]);
         }
         void truncate_markers(int keep) override
         {
             markers_.erase(markers_.begin() + keep, markers_.end());
+            while (keepers_.size() > std::size_t(keep))
+            {
+                keepers_.back()->release();
+                keepers_.pop_back();
+            }
+        }
+        void destroy() override
+        {
+            husks_.clear();
+            while (!keepers_.empty())
+                keepers_.pop_back(); // innermost first: each unwinds to its marker
+            ObjBase<Stack, StackObj<Stack>>::destroy();
+        }
+        ~StackObj() override
+        {
+            // (an abandoned object is never destroyed: its unwinders must not run either)
+            for (auto& k : keepers_)
+                k.release();
+            for (auto& h : husks_)
+                h.release();
         }
         int compare_markers(int ia, int ib) override
         {
@@ -475,7 +528,9 @@ namespace hs
             markers_.swap(static_cast<StackObj&>(other).markers_);
         }
 
-        std::vector<typename Stack::marker> markers_;
+        std::vector<typename Stack::marker>    markers_;
+        bool                                   raii_ = false;
+        std::vector<std::unique_ptr<Unwinder>> keepers_, husks_;
     };
 
     //=== iteration_allocator ===//
@@ -694,6 +749,14 @@ namespace hs
                              T*   t = Src::template make<T>(slot, c2);
                              auto o = new StackObj<T>(t);
                              o->caps   = c;
+                             if (cfg.raii)
+                             {
+                                 // the unwinders refer to the stack object: it stays where it is
+                                 o->raii_           = true;
+                                 o->caps.movable    = false;
+                                 o->caps.assignable = false;
+                                 o->caps.swappable  = false;
+                             }
                              o->owner  = Src::owner(cfg);
                              o->header = arena_header;
                              o->name   = name;
